@@ -4,7 +4,12 @@ Seeded random histories of translate / scale / rotate90 calls (mixed in-place an
 far reference points, interleaved degenerate / malformed steps) on regions, meshes with subregions and fields.  After every step the
 real object is compared with an own affine oracle computed from its state before the step, the class invariants are evaluated, both
 forms are compared with each other and the receiver of the copying form is compared with its snapshot.
-Bounded: histories of <= 8 (quick) / <= 20 (thorough) steps, 1-4 dimensions, <= 5 cells per axis."""
+Aliasing cases: several meshes / fields are made from ONE set of caller objects (the same Region object under two subregion names, a subregion that is the
+object passed as region=, one dict or the same Region objects given to two meshes, a mesh's live `subregions` dict handed to another mesh through the
+constructor or the setter, corners that are the same ndarray objects, dims / units / tolerance of the handed objects equal to or different from the mesh's,
+further meshes spawned from a holder in the middle of a history).  Every step must realise its map exactly once on every region / subregion of the receiver,
+and nothing but the receiver may change: the other holders, the caller's own objects, earlier receivers of copying steps, the argument containers.
+Bounded: histories of <= 8 (quick) / <= 20 (thorough) steps, 1-4 dimensions, <= 5 cells per axis (aliasing: <= 6 / 12 steps, <= 4 holders, <= 8 cells per axis)."""
 import copy
 import numpy as np
 import discretisedfield as df
@@ -20,6 +25,9 @@ CLAUSES = {
     "C13.inplace_returns_self": "the in-place form returns the object itself",
     "C13.inplace_eq_copy": "the in-place form leaves the object equal to what the copying form returns (coordinates to 64 ulp of the step scale, everything else exact)",
     "C13.copy_pure": "the copying form returns a new object and leaves the receiver untouched (exact snapshot comparison)",
+    "C13.frame": "a call changes nothing but its receiver (in-place form) / nothing at all (copying form, rejected call, construction of a mesh from existing objects): "
+                 "the Region objects, subregion dicts and arrays the caller handed to constructors / setters, every other mesh / field built from the same objects, "
+                 "earlier receivers of copying steps and the argument containers keep their exact state",
     "C13.accept": "a well-formed step with non-zero factors is carried out in both forms",
     "C13.reject": "a step that would produce a degenerate region (zero factor) or has malformed arguments is rejected (ValueError/TypeError; RuntimeError for the "
                   "unmapped vector rotation) in both forms and the object is not modified",
@@ -27,6 +35,12 @@ CLAUSES = {
 RULE = ("seeded histories on regions (1-4 d), meshes with 0-3 subregions (1-4 d, scales 1e-9 / 1 / 10^U(-12,6) without subregions) and fields (2-3 d, scalar and mapped vector); "
         "every step drawn from translate / scale (scalar or per-axis, either sign, |s| in 10^U(-1.5,1.5)) / rotate90 (k in -5..5), reference default / near / 1e3 sizes away, "
         "in place with probability 1/2, argument containers tuple / list / ndarray; one in four steps is preceded by a degenerate or malformed request; "
+        "aliasing cases: pattern (10: same object under two names / subregion is the region= object / both / one dict for two meshes / same Region objects in two dicts / "
+        "another mesh's live subregions dict through constructor / through setter / shared corner ndarrays / field over an aliased mesh / mesh spawned mid-history) x "
+        "attributes of the handed Region objects (default / custom equal to the mesh's / different) x first in-place operation, tolerance_factor default / equal / different, "
+        "1-3 d (thorough 1-4 d), 1-2 initial holders (region= the same object or an equal one, same or twice finer lattice) + spawned ones, dyadic coordinates "
+        "(unit 1 as Python ints or floats, 1/4, 2^-30) so that translations and scalings (factors +-1/4 .. +-4, 3, 1) are exact, steps addressed to any holder, "
+        "in place with probability 0.65, identity steps (zero vector, factor 1, k = 0, +-4) included; "
         "non-trivial = history with at least two well-formed steps; distinct by (kind, params)")
 ASSUMPTIONS = [
     "bounded: histories of at most 8 (quick) / 20 (thorough) well-formed steps, 1-4 dimensions, <= 5 cells per axis",
@@ -34,6 +48,13 @@ ASSUMPTIONS = [
     "(it desynchronises array and mesh by construction: representation exposure, reported separately)",
     "non-finite factors (nan/inf) are not generated",
     "after a step whose in-place form violates a clause the history continues from the copying form's result, so that later steps are still explored",
+    "the library keeps the object passed as region= by reference (mesh.region is that object; design decision, representation exposure reported as an observation): "
+    "C13.frame therefore lets that very object, and the region of every other mesh the CALLER built with the same object, move along with an in-place step; such a "
+    "co-holder (its region moved, its subregions rightly not) is only watched from then on and receives no further steps. Objects made by the library itself "
+    "(results of copying steps) have no such licence",
+    "aliasing cases use exactly representable coordinates and bounded magnitudes (|x| <= 256 units, edges >= 1/16 unit) so that the constructor's re-validation of "
+    "subregions in the copying form is not disturbed by the absolute 1e-12 tolerance of is_aligned (known finding of C14); a mesh spawned from a holder whose "
+    "constructor refuses the (rounded) subregions ends the history without a verdict",
 ]
 
 DIMS = ["u", "w", "q", "t"]
@@ -73,7 +94,7 @@ class Agg:
 
 
 # ------------------------------------------------------------------------------------------ objects and snapshots
-def build(pr):
+def build(pr, world=None):
     p1, p2 = pr["p1"], pr["p2"]
     nd = len(p1)
     dims = tuple(pr.get("dims") or DIMS[:nd])
@@ -85,9 +106,21 @@ def build(pr):
     pmin, pmax = np.minimum(p1, p2).astype(float), np.maximum(p1, p2).astype(float)
     cell = (pmax - pmin) / n
     subs = {"r%d" % i: df.Region(p1=tuple(pmin + np.array(lo) * cell), p2=tuple(pmin + np.array(hi) * cell)) for i, (lo, hi) in enumerate(pr.get("subs") or [])}
+    if world is not None:
+        world.give("region= object", region)
+        for k, v in subs.items():
+            world.give("subregion object " + k, v)
+        world.give_dict("subregions dict", subs)
     mesh = df.Mesh(region=region, n=tuple(int(k) for k in n), subregions=subs)
+    if world is not None:
+        world.license(region, mesh)
     if pr["obj"] == "mesh":
         return mesh
+    return make_field(mesh, pr, dims, world)
+
+
+def make_field(mesh, pr, dims, world=None):
+    n = np.array(mesh.n, int)
     nvdim = int(pr["nvdim"])
     lin = np.arange(int(np.prod(n))).reshape(tuple(n))
     array = (1.0 + nvdim * lin[..., None] + np.arange(nvdim)) * np.where(np.arange(nvdim) % 2, -1.0, 1.0)
@@ -96,7 +129,73 @@ def build(pr):
     if nvdim > 1:
         kw["vdims"] = VD[:nvdim]
         kw["vdim_mapping"] = {VD[c]: (dims[j] if j is not None else None) for c, j in enumerate(pr["vmap"])}
+    if world is not None:
+        world.give("value array", array)
+        world.give("valid array", valid)
     return df.Field(mesh, nvdim=nvdim, value=array, valid=valid, unit="A/m", **kw)
+
+
+def alias_attrs(pr, which):
+    """constructor keywords of the mesh region ("region") / of the Region objects handed over as subregions ("pool")"""
+    nd, kw = pr["nd"], {}
+    if pr["attrs"] == "custom" or (pr["attrs"] == "mismatch" and which == "region"):
+        kw.update(dims=tuple(DIMS[:nd]), units=tuple(UNITS[:nd]))
+    if pr["tol"] == "equal" or (pr["tol"] == "differ" and which == "region"):
+        kw["tolerance_factor"] = 1e-10
+    return kw
+
+
+def build_alias(pr):
+    """several meshes / fields made from ONE set of caller objects: a Region R, a pool of Region objects on R's cell lattice, subregion dicts.
+    All coordinates are integers times a power of two, so that every translation / scaling of the history is exact in doubles."""
+    w = World()
+    nd, n0 = pr["nd"], [int(k) for k in pr["n"]]
+    org, cm, unit = np.array(pr["origin"], int), np.array(pr["cellm"], int), float(pr["unit"])
+    cache = {}
+
+    def corner(idx):
+        v = org + np.array(idx, int) * cm
+        c = tuple(int(x) for x in v) if pr["ints"] else tuple(float(x) * unit for x in v)
+        if not pr["arrays"]:
+            return c
+        if c not in cache:                      # one ndarray object per distinct corner, shared by all Region constructors
+            cache[c] = np.array(c)
+        return cache[c]
+
+    def box(lo, hi, **kw):
+        p1 = [hi[j] if pr["flip"][j] else lo[j] for j in range(nd)]
+        p2 = [lo[j] if pr["flip"][j] else hi[j] for j in range(nd)]
+        return df.Region(p1=corner(p1), p2=corner(p2), **kw)
+
+    R = box([0] * nd, n0, **alias_attrs(pr, "region"))
+    pool = [box(lo, hi, **alias_attrs(pr, "pool")) for lo, hi in pr["pool"]]
+    w.give("caller's Region R", R)
+    for i, r in enumerate(pool):
+        w.give("caller's Region pool[%d]" % i, r)
+    for a in cache.values():
+        w.give("caller's corner array", a)
+    dicts = {}
+    for k, hs in enumerate(pr["holders"]):
+        reg = R
+        if hs["region"] != "R":
+            reg = box([0] * nd, n0, **alias_attrs(pr, "region"))
+            w.give("region= object of holder %d" % k, reg)
+        if hs.get("adopt") is not None:
+            d = mesh_of(w.holders[hs["adopt"]]).subregions          # the live dict of another mesh
+        else:
+            if hs["dict"] not in dicts:
+                dicts[hs["dict"]] = {name: (R if ref == "R" else pool[ref]) for name, ref in hs["subs"]}
+                w.give_dict("caller's subregions dict %d" % hs["dict"], dicts[hs["dict"]])
+            d = dicts[hs["dict"]]
+        n = tuple(int(a * b) for a, b in zip(n0, hs["fine"]))
+        if hs["via"] == "ctor":
+            mesh = df.Mesh(region=reg, n=n, subregions=d)
+        else:
+            mesh = df.Mesh(region=reg, n=n)
+            mesh.subregions = d
+        w.license(reg, mesh)
+        w.hold(make_field(mesh, hs, mesh.region.dims, w) if hs.get("nvdim") else mesh)
+    return w
 
 
 def snap(obj):
@@ -178,6 +277,92 @@ def invariants(obj):
         if v.dtype != bool or v.shape != tuple(mesh.n):
             bad.append("validity not Boolean of shape n")
     return bad
+
+
+# ------------------------------------------------------------------------------------------ the world around the receiver of a step
+def region_of(o):
+    return o if isinstance(o, df.Region) else (o.region if isinstance(o, df.Mesh) else o.mesh.region)
+
+
+def mesh_of(o):
+    return o.mesh if isinstance(o, df.Field) else o
+
+
+def wsnap(x):
+    return x.copy() if isinstance(x, np.ndarray) else snap(x)
+
+
+def same_container(c, c0):
+    if isinstance(c, np.ndarray):
+        return c.dtype == c0.dtype and c.shape == c0.shape and bool(np.all(c == c0))
+    return type(c) is type(c0) and len(c) == len(c0) and all(type(a) is type(b) and a == b for a, b in zip(c, c0))
+
+
+class World:
+    """Everything that exists besides the receiver of a call: the other holders (meshes / fields addressed by the steps), the objects the caller handed to
+    constructors and setters (Region objects, subregion dicts, value arrays), earlier receivers of copying steps, the argument containers of the call.
+    `changed` lists those whose state differs (exactly) from the last `freeze`.  The one exception: the Region object passed as region= is kept by reference
+    by the library (documented design, see ASSUMPTIONS); when the CALLER built the moved mesh with region=r, then r itself and the region of every other mesh
+    the caller built with the same r may move along (`license`).  Objects made by the library (results of copying steps) never have that licence."""
+
+    def __init__(self):
+        self.holders, self.given, self.dicts, self.old, self.args, self.frozen, self.sharers = [], [], [], [], [], {}, {}
+
+    def license(self, region, mesh):
+        self.sharers.setdefault(id(region), set()).add(id(mesh))
+
+    def give(self, label, x):
+        self.given.append((label, x))
+        self.frozen[id(x)] = wsnap(x)
+
+    def give_dict(self, label, d):
+        self.dicts.append((label, d, list(d.items())))
+
+    def hold(self, o):
+        self.holders.append(o)
+        self.frozen[id(o)] = wsnap(o)
+
+    def retire(self, label, o):
+        self.old.append((label, o))
+        self.frozen[id(o)] = wsnap(o)
+
+    def things(self):
+        for j, o in enumerate(self.holders):
+            yield "holder %d (%s)" % (j, type(o).__name__), o
+        yield from self.given
+        yield from self.old
+
+    def freeze(self):
+        self.frozen = {id(x): wsnap(x) for _, x in self.things()}
+        self.args = []
+
+    def changed(self, moved=None, skip=None):
+        out = []
+        mreg, licensed = None, ()
+        if moved is not None and not isinstance(self.holders[moved], df.Region):
+            mreg = region_of(self.holders[moved])
+            licensed = self.sharers.get(id(mreg), ())
+            if id(mesh_of(self.holders[moved])) not in licensed:
+                licensed = ()
+        for label, x in self.things():
+            if (moved is not None and x is self.holders[moved]) or (skip is not None and x is self.holders[skip]) or id(x) not in self.frozen or (x is mreg and licensed):
+                continue
+            if isinstance(x, np.ndarray):
+                d = [] if (x.shape == self.frozen[id(x)].shape and np.array_equal(x, self.frozen[id(x)])) else ["content"]
+            else:
+                d = diff(wsnap(x), self.frozen[id(x)])
+                if not isinstance(x, df.Region) and region_of(x) is mreg and id(mesh_of(x)) in licensed:
+                    d = [k for k in d if k not in ("pmin", "pmax", "units")]
+            if d:
+                out.append("%s: %s" % (label, ",".join(d)))
+        for label, d, items in self.dicts:
+            now = list(d.items())
+            if len(now) != len(items) or any(k != k0 or v is not v0 for (k, v), (k0, v0) in zip(now, items)):
+                out.append(label + ": entries")
+        for c, c0 in self.args:
+            if not same_container(c, c0):
+                out.append("argument %s" % type(c).__name__)
+        return out
 
 
 # ------------------------------------------------------------------------------------------ oracle
@@ -281,23 +466,30 @@ def container(x, form):
     return {"tuple": tuple, "list": list, "array": np.array}[form](x)
 
 
-def apply(obj, step, inplace, dims):
+def apply(obj, step, inplace, dims, keep=None):
     """call the real method for a (well-formed or malformed) step"""
     form = step.get("form", "tuple")
     op = step["op"]
     target = obj
     if isinstance(obj, df.Field) and op in ("translate", "scale"):
         target = obj.mesh
+
+    def cont(x):
+        c = container(x, form)
+        if keep is not None and isinstance(c, (list, np.ndarray)):
+            keep.append((c, copy.deepcopy(c)))
+        return c
+
     if op == "translate":
-        return target.translate(container(step["vector"], form), inplace=inplace)
+        return target.translate(cont(step["vector"]), inplace=inplace)
     if op == "scale":
         kw = {}
         if step.get("ref") is not None:
-            kw["reference_point"] = container(step["ref"], form)
-        return target.scale(container(step["factor"], form), inplace=inplace, **kw)
+            kw["reference_point"] = cont(step["ref"])
+        return target.scale(cont(step["factor"]), inplace=inplace, **kw)
     kw = {}
     if step.get("ref") is not None:
-        kw["reference_point"] = container(step["ref"], form)
+        kw["reference_point"] = cont(step["ref"])
     ax1 = dims[step["a"]] if isinstance(step["a"], int) else step["a"]
     ax2 = dims[step["b"]] if isinstance(step["b"], int) else step["b"]
     return target.rotate90(ax1, ax2, k=step["k"], inplace=inplace, **kw)
@@ -384,6 +576,134 @@ def index_boxes(rng, n, count):
     return out
 
 
+# ---------------------------------------------------------------- aliasing: several holders made from one set of caller objects
+ALIAS_PATTERNS = ["twice", "whole", "twice+whole", "dict2", "objs2", "adopt", "adopt-setter", "arrays", "field", "spawn"]
+ALIAS_ATTRS = ["default", "custom", "mismatch"]
+ALIAS_OPS = ["translate", "scale", "rotate90"]
+FACTORS = [2.0, 0.5, -1.0, -2.0, -0.5, 4.0, 0.25, 3.0, 1.0]
+
+
+def alias_step(rng, pr, lo, hi, op=None):
+    """one well-formed step whose translation / scaling is exact for the dyadic coordinates of the aliasing cases; the transformed box stays
+    within 256 units with edges >= 1/16 unit (so that the copying form's re-validation of subregions never meets the absolute 1e-12 of is_aligned)"""
+    nd, unit = pr["nd"], float(pr["unit"])
+    for _ in range(8):
+        o = op or str(rng.choice(ALIAS_OPS if nd >= 2 else ALIAS_OPS[:2]))
+        st = {"op": o, "form": str(rng.choice(["tuple", "list", "array"]))}
+        u = rng.random()
+        if u < 0.35:
+            ref = None
+        elif u < 0.75:
+            ref = (lo + rng.integers(-2, 7, nd) * (hi - lo) / 4).tolist()
+        else:
+            ref = (rng.integers(-64, 65, nd) * unit).tolist()
+        if o == "translate":
+            mult = float(rng.choice([1.0, 0.5, 16.0]))
+            iv = rng.integers(-8, 9, nd) * (0 if rng.random() < 0.1 else 1)
+            st["vector"] = [int(x) for x in iv] if (pr["ints"] and mult == 1.0 and rng.random() < 0.5) else (iv * mult * unit).tolist()
+            if nd == 1 and rng.random() < 0.3:
+                st["vector"] = st["vector"][0]
+        elif o == "scale":
+            f = [float(x) for x in rng.choice(FACTORS, nd)]
+            if rng.random() < 0.3:
+                f = [int(x) if float(x).is_integer() else x for x in f]
+            st["factor"] = f if rng.random() < 0.5 else f[0]
+            st["ref"] = ref
+        else:
+            a, b = (int(x) for x in rng.permutation(nd)[:2])
+            st.update(a=a, b=b, k=int(rng.integers(-5, 6)), ref=ref)
+        R = 0.5 * (lo + hi) if st.get("ref") is None else np.array(st["ref"], float)
+        nlo, nhi = map_box(lo, hi, st, R)
+        if max(np.abs(nlo).max(), np.abs(nhi).max()) <= 256 * unit and (nhi - nlo).min() >= unit / 16:
+            return st, nlo, nhi
+    return {"op": "translate", "form": "tuple", "vector": [0.0] * nd}, lo.copy(), hi.copy()
+
+
+def alias_case(rng, i, maxlen, nds):
+    pat = ALIAS_PATTERNS[i % len(ALIAS_PATTERNS)]
+    first_op = ALIAS_OPS[(i // 30) % 3]
+    nd = int(rng.choice(nds))
+    if first_op == "rotate90" and nd == 1:
+        nd = 2
+    unit = float(rng.choice([1.0, 0.25, 2.0 ** -30]))
+    n0 = [int(x) for x in rng.integers(1, {1: 5, 2: 5, 3: 4, 4: 3}[nd], nd)]
+    pr = {"pattern": pat, "nd": nd, "unit": unit, "ints": bool(unit == 1.0 and rng.random() < 0.5), "n": n0,
+          "origin": [int(x) for x in rng.integers(-6, 7, nd)], "cellm": [int(x) for x in rng.integers(1, 4, nd)], "flip": [bool(x) for x in rng.integers(0, 2, nd)],
+          "attrs": ALIAS_ATTRS[(i // 10) % 3], "tol": str(rng.choice(["default", "default", "equal", "differ"])), "arrays": bool(pat == "arrays" or rng.random() < 0.2)}
+    pr["pool"] = index_boxes(rng, n0, int(rng.integers(1, 4)))
+    if rng.random() < 0.3:
+        pr["pool"].append([[0] * nd, list(n0)])
+    npool = len(pr["pool"])
+
+    def rand_subs(prefix):
+        return [[prefix + str(j), ("R" if rng.random() < 0.2 else int(rng.integers(npool)))] for j in range(int(rng.integers(1, 4)))]
+
+    def fine():
+        return [int(x) for x in rng.choice([1, 1, 2], nd)]
+
+    h0 = {"region": "R", "fine": [1] * nd, "via": str(rng.choice(["ctor", "ctor", "setter"])), "dict": 0}
+    if pat == "twice":
+        h0["subs"] = [["a", 0], ["b", 0]] + (rand_subs("s") if rng.random() < 0.5 else [])
+    elif pat == "whole":
+        h0["subs"] = [["tot", "R"]] + (rand_subs("s") if rng.random() < 0.5 else [])
+    elif pat == "twice+whole":
+        h0["subs"] = [["tot", "R"], ["a", 0], ["all", "R"], ["b", 0]]
+    else:
+        h0["subs"] = rand_subs("s")
+    holders = [h0]
+    second = str(rng.choice(["dict2", "objs2", "adopt", "adopt-setter"])) if (pat in ("twice", "whole", "twice+whole", "arrays", "field") and rng.random() < 0.3) else pat
+    if second == "dict2":
+        holders.append({"region": str(rng.choice(["R", "eq"])), "fine": fine(), "via": str(rng.choice(["ctor", "setter"])), "dict": 0, "subs": h0["subs"]})
+    elif second == "objs2":
+        holders.append({"region": str(rng.choice(["R", "eq"])), "fine": fine(), "via": str(rng.choice(["ctor", "setter"])), "dict": 1,
+                        "subs": [["t" + str(j), ref] for j, (_, ref) in enumerate(h0["subs"])] + rand_subs("u")})
+    elif second in ("adopt", "adopt-setter"):
+        holders.append({"region": str(rng.choice(["R", "eq"])), "fine": fine(), "via": "ctor" if second == "adopt" else "setter", "adopt": 0})
+    if pat == "field" or rng.random() < 0.2:
+        nv = 1 if (nd == 1 or rng.random() < 0.5) else nd
+        h0.update(nvdim=nv, vmap=[int(x) for x in rng.permutation(nd)] if nv > 1 else [None], vseed=int(rng.integers(1 << 30)))
+    pr["holders"] = holders
+    # ------------------------------------------------ steps, with the region box of every holder followed through the history
+    org, cm = np.array(pr["origin"], float), np.array(pr["cellm"], float)
+    key = ["R" if hs["region"] == "R" else "h%d" % k for k, hs in enumerate(holders)]
+    boxes = {k: (org * unit, (org + np.array(n0) * cm) * unit) for k in key}
+    stale = [False] * len(holders)       # the region= object of the holder was moved through another holder (kept by reference): the holder is only watched from then on
+    isfield = [bool(hs.get("nvdim")) for hs in holders]
+    steps, fresh = [], 0
+    for t in range(int(rng.integers(2, maxlen + 1))):
+        live = [h for h in range(len(key)) if not stale[h]]
+        h = 0 if t == 0 else int(rng.choice(live))
+        if t > 0 and rng.random() < 0.15:
+            st = bad_step(rng, nd, nd >= 2, None)
+            st["h"] = h
+            steps.append(st)
+        if (pat == "spawn" and t == 1) or (t > 0 and len(key) < 4 and rng.random() < 0.12):
+            same = bool(rng.random() < 0.4)
+            steps.append({"op": "spawn", "from": h, "region": "same" if same else "eq", "via": str(rng.choice(["ctor", "setter"])), "live": bool(rng.random() < 0.6),
+                          "fine": [int(x) for x in rng.choice([1, 1, 1, 2], nd)]})
+            fresh += 1
+            key.append(key[h] if same else "s%d" % fresh)
+            boxes[key[-1]] = boxes[key[h]]
+            stale.append(False)
+            isfield.append(False)
+            continue
+        lo, hi = boxes[key[h]]
+        st, nlo, nhi = alias_step(rng, pr, lo, hi, first_op if t == 0 else None)
+        st["h"] = h
+        st["inplace"] = True if t == 0 else bool(rng.random() < 0.65)
+        if st["inplace"] or (isfield[h] and st["op"] != "rotate90"):
+            for j in range(len(key)):
+                if j != h and key[j] == key[h]:
+                    stale[j] = True
+        else:
+            fresh += 1
+            key[h] = "c%d" % fresh
+        boxes[key[h]] = (nlo, nhi)
+        steps.append(st)
+    pr["steps"] = steps
+    return pr
+
+
 def cases(ctx):
     rng = ctx.rng
     quick = ctx.tier == "quick"
@@ -439,14 +759,20 @@ def cases(ctx):
         {"op": "scale", "factor": [1.0, -0.5], "inplace": True, "ref": [1e-6, -1e-6]}, {"op": "translate", "vector": [1e-9, 0.0], "inplace": True}]}
     yield "history", {"obj": "field", "p1": [0.0, 0.0, 0.0], "p2": [4.0, 3.0, 2.0], "n": [4, 3, 2], "subs": [], "nvdim": 2, "vmap": [0, None], "vseed": 3, "dims": ["x", "y", "z"], "steps": [
         {"op": "rotate90", "a": 0, "b": 1, "k": 1, "bad": True, "why": "unmapped-vector"}, {"op": "translate", "vector": [1.0, 1.0, 1.0], "inplace": True}]}
+    # aliasing between the objects handed to meshes
+    for i in range(360 if quick else 5400):
+        yield "alias", alias_case(rng, i, 6 if quick else 12, [1, 2, 2, 3, 3] if quick else [1, 2, 2, 3, 3, 4])
 
 
 # ------------------------------------------------------------------------------------------ check
 def check(kind, pr, ctx):
     ag = Agg(ctx)
-    if sum(1 for s in pr["steps"] if not s.get("bad")) < 2:
+    if sum(1 for s in pr["steps"] if not s.get("bad") and s["op"] != "spawn") < 2:
         ctx.trivial()
-    run_history(pr, ag)
+    if kind == "alias":
+        run_steps(build_alias(pr), pr["steps"], ag)
+    else:
+        run_history(pr, ag)
     ag.flush()
 
 
@@ -458,10 +784,63 @@ def reject_sig(step, form, obj):
 
 
 def run_history(pr, ag):
-    obj = build(pr)
-    kindname = pr["obj"]
-    ag.req(not invariants(obj), "C13.invariants", "freshly built object violates the invariants", broken=invariants(obj))
-    for t, step in enumerate(pr["steps"]):
+    world = World()
+    world.hold(build(pr, world))
+    run_steps(world, pr["steps"], ag)
+
+
+def kind_of(o):
+    return "region" if isinstance(o, df.Region) else ("mesh" if isinstance(o, df.Mesh) else "field")
+
+
+def frame(world, ag, label, when, moved=None, skip=None):
+    ch = world.changed(moved=moved, skip=skip)
+    return ag.req(not ch, "C13.frame", "objects that are not the receiver of the step changed (%s)" % when, changed=ch, **label)
+
+
+def spawn(world, step, ag, label):
+    """a further mesh made from the present state of a holder (its region object or an equal one, its live subregions dict or a copy of it)"""
+    src = mesh_of(world.holders[step["from"]])
+    world.freeze()
+    try:
+        r = src.region
+        if step["region"] != "same":
+            r = df.Region(p1=r.pmin, p2=r.pmax, dims=r.dims, units=r.units, tolerance_factor=r.tolerance_factor)
+        d = src.subregions if step["live"] else dict(src.subregions)
+        n = tuple(int(a * b) for a, b in zip(src.n, step["fine"]))
+        if step["via"] == "ctor":
+            new = df.Mesh(region=r, n=n, subregions=d)
+        else:
+            new = df.Mesh(region=r, n=n)
+            new.subregions = d
+    except ValueError:
+        return False        # the constructor's validation of (rounded) subregions is C14's business; the history ends here
+    if r is not src.region:
+        world.give("region= object of holder %d" % len(world.holders), r)
+    world.license(r, new)
+    world.license(r, src)           # the caller hands src's own region object to the new mesh
+    iv = invariants(new)
+    ag.req(not iv, "C13.invariants", "freshly built object violates the invariants", broken=iv, **label)
+    frame(world, ag, label, "a mesh was constructed from the region / subregions of a holder")
+    world.hold(new)
+    return True
+
+
+def run_steps(world, steps, ag):
+    objs = world.holders
+    for o in objs:
+        iv = invariants(o)
+        ag.req(not iv, "C13.invariants", "freshly built object violates the invariants", broken=iv)
+    ch = world.changed()
+    ag.req(not ch, "C13.frame", "objects handed to a constructor / setter were modified by it", changed=ch)
+    for t, step in enumerate(steps):
+        h = step.get("h", 0)
+        if step["op"] == "spawn":
+            if not spawn(world, step, ag, {"step": t, "op": "spawn", "request": step}):
+                return
+            continue
+        obj = objs[h]
+        kindname = kind_of(obj)
         pre = snap(obj)
         dims = top_region(pre)["dims"]
         is_field_mesh_step = kindname == "field" and step["op"] in ("translate", "scale")
@@ -471,8 +850,9 @@ def run_history(pr, ag):
             types = REJECT + ((RuntimeError,) if step.get("why") == "unmapped-vector" else ())
             for form in (("copy", "inplace") if not is_field_mesh_step else ("inplace",)):
                 work = obj
+                world.freeze()
                 try:
-                    apply(work, step, form == "inplace", dims)
+                    apply(work, step, form == "inplace", dims, world.args)
                     refused, err = False, None
                 except types as e:
                     refused, err = True, e
@@ -487,7 +867,8 @@ def run_history(pr, ag):
                 elif d and step.get("why") == "zero-factor" and form == "inplace":
                     sig = "inplace-scale-zero-factor-accepted"
                 ag.req(not d, "C13.reject", "object modified by a degenerate/malformed step (%s form)" % form, sig=sig, why=step.get("why"), differs=d, **label)
-                if d:
+                okf = frame(world, ag, label, "rejected step, %s form" % form, skip=h)
+                if d or not okf:
                     return          # the object is corrupted; nothing sensible can follow
             continue
         # ---------------------------------------------------------------- well-formed step
@@ -496,7 +877,8 @@ def run_history(pr, ag):
         vs = float(np.abs(pre["array"]).max()) if "array" in pre else None
         cpy = None
         if not is_field_mesh_step:
-            r, cpy = raises(Exception, lambda: apply(obj, step, False, dims))
+            world.freeze()
+            r, cpy = raises(Exception, lambda: apply(obj, step, False, dims, world.args))
             if r:
                 msg = str(cpy)
                 # signature only: the subregion validation of the constructor refuses boxes that the (unvalidated) in-place form produces correctly to rounding
@@ -511,15 +893,17 @@ def run_history(pr, ag):
             ag.req(True, "C13.accept")
             d0 = diff(snap(obj), pre)
             ag.req(cpy is not obj and not d0, "C13.copy_pure", "the copying form modified the receiver or returned it", differs=d0, **label)
+            okf = frame(world, ag, label, "copying form", skip=h)
             dc = diff(snap(cpy), exp, sc, vs)
             ag.req(not dc, clause, "result of the copying form differs from the documented affine map", differs=dc, got=region_brief(snap(cpy)), want=region_brief(exp), **label)
             iv = invariants(cpy)
             ag.req(not iv, "C13.invariants", "invariants broken after a copying step", broken=iv, **label)
-            if dc or iv or d0:
+            if dc or iv or d0 or not okf:
                 return
         if step["inplace"] or is_field_mesh_step:
             target = obj.mesh if is_field_mesh_step else obj
-            r, ret = raises(Exception, lambda: apply(obj, step, True, dims))
+            world.freeze()
+            r, ret = raises(Exception, lambda: apply(obj, step, True, dims, world.args))
             if not ag.req(not r, "C13.accept", "well-formed step refused by the in-place form", error=repr(ret)[:200], **label):
                 return
             ag.req(ret is target, "C13.inplace_returns_self", "in-place form does not return the object itself", **label)
@@ -528,6 +912,10 @@ def run_history(pr, ag):
             neg = step["op"] == "scale" and bool(np.any(np.array(step["factor"], float) < 0))
             isig = "inplace-negative-scale-leaves-pmin-gt-pmax" if (iv and neg and any("pmin<pmax" in x for x in iv) and all("pmin<pmax" in x or "cell" in x for x in iv)) else None
             okiv = ag.req(not iv, "C13.invariants", "invariants broken after an in-place step", sig=isig, broken=iv, **label)
+            for j, other in enumerate(objs):
+                if j != h:
+                    ivo = invariants(other)
+                    okiv = ag.req(not ivo, "C13.invariants", "invariants of another mesh / field broken after an in-place step", broken=ivo, holder=j, **label) and okiv
             de = diff(post, exp, sc, vs)
             sig = classify(de, step, pre, post, neg)
             oke = ag.req(not de, clause, "state after the in-place form differs from the documented affine map", sig=sig, differs=de, got=region_brief(post), want=region_brief(exp), **label)
@@ -535,12 +923,15 @@ def run_history(pr, ag):
             if cpy is not None:
                 dd = diff(post, snap(cpy), sc, vs)
                 okc = ag.req(not dd, "C13.inplace_eq_copy", "in-place result differs from the copying form's result", sig=classify(dd, step, pre, post, neg), differs=dd, **label)
-            if not (okiv and oke and okc):
-                if cpy is None:
+            okf = frame(world, ag, label, "in-place form", moved=h)
+            if not (okiv and oke and okc and okf):
+                if cpy is None or len(objs) > 1 or not okf:
                     return
-                obj = cpy         # continue the history from the sound state
+                world.retire("receiver of step %d" % t, obj)
+                objs[h] = cpy         # continue the history from the sound state
         else:
-            obj = cpy
+            world.retire("receiver of step %d" % t, obj)
+            objs[h] = cpy
 
 
 def twin(obj):
@@ -575,8 +966,9 @@ def classify(d, step, pre, post, neg):
 def region_brief(s):
     r = top_region(s)
     out = {"pmin": r["pmin"], "pmax": r["pmax"], "units": r["units"]}
-    if "n" in s:
-        out["n"] = s["n"]
-    if "mesh" in s:
-        out["n"] = s["mesh"]["n"]
+    m = s if "n" in s else s.get("mesh")
+    if m is not None:
+        out["n"] = m["n"]
+        if m["subs"]:
+            out["subregions"] = {k: [v["pmin"], v["pmax"]] for k, v in m["subs"]}
     return out
